@@ -7,7 +7,13 @@
 EXTENDS Integers, Sequences
 
 UNDEF == 0 - 1000
-Truthy(v) == v # 0 /\ v # UNDEF          \* bool(UNDEF) is False
+(* equal-but-not-identical values: the code FLOAT + k stands for the float k.0, which     *)
+(* compares equal to the integer k but is a different object (f"{v}", type(v) see it)     *)
+FLOAT == 500
+IsFloat(v) == v >= FLOAT /\ v < 2 * FLOAT
+Base(v) == IF IsFloat(v) THEN v - FLOAT ELSE v
+Eq(a, b) == a = b \/ (a # UNDEF /\ b # UNDEF /\ Base(a) = Base(b))      \* Python ==
+Truthy(v) == v # UNDEF /\ Base(v) # 0    \* bool(UNDEF) is False
 Bv(b) == IF b THEN 1 ELSE 0
 
 In(blk, o, i) == IF blk.ins[i].c THEN blk.ins[i].x ELSE o[blk.ins[i].x]
@@ -34,4 +40,7 @@ F(blk, o, cur) ==
       [] blk.k = "override" ->       \* ins = <<input, override>>, p1 = null value
             IF In(blk, o, 2) = blk.p1 THEN In(blk, o, 1) ELSE In(blk, o, 2)
       [] blk.k \in {"wsum", "wsum_np", "wsum_named"} -> WSum(blk, o, 1, 0)
+      [] blk.k = "mixf" ->           \* ins = <<x, sel>>: float(x) if sel else int(x)
+            IF Truthy(In(blk, o, 2)) THEN FLOAT + Base(In(blk, o, 1)) ELSE Base(In(blk, o, 1))
+      [] blk.k = "typ"  -> Bv(IsFloat(In(blk, o, 1)))      \* a function that tells 5 from 5.0
 =============================================================================
